@@ -21,3 +21,16 @@ func wfServiceFns(ws *WebService) bool {
 // lock ghost: 0 free, n > 0 read-held n times by this goroutine, -1 write-held
 func servicesLock(c *Container) int { return ghostInt("lock.Container.webServicesLock", c) }
 func routesLockOf(w *WebService) int { return ghostInt("lock.WebService.routesLock", w) }
+
+// chainOK: precondition of FilterChain.ProcessFilter as a predicate.
+func chainOK(f *FilterChain) bool {
+	return f != nil && 0 <= f.Index &&
+		forall(0, len(f.Filters), func(k int) bool { return f.Filters[k] != nil }) &&
+		(f.Index < len(f.Filters) || f.Target != nil)
+}
+
+// matchersOK: the compiled path expressions computeAllowedMethods relies on exist.
+func matchersOK(ws *WebService) bool {
+	return ws != nil && ws.pathExpr != nil && ws.pathExpr.Matcher != nil && routesLockOf(ws) >= 0 &&
+		forall(0, len(ws.routes), func(k int) bool { return ws.routes[k].pathExpr != nil && ws.routes[k].pathExpr.Matcher != nil })
+}
